@@ -7,7 +7,7 @@ top-N. The implementations must agree as multisets (top-N on the key sequence); 
 nested-loop / group-by reference names the side that is wrong."""
 import random
 
-from common import Report, Violation, parallel_map, h, run_sentinels, cell_key
+from common import Report, Violation, parallel_map, h, run_sentinels, cell_key, panic_site
 from sqlcase import RL, norm_rows, ms
 
 
@@ -153,7 +153,7 @@ def run_case(args):
             got = {}
             for imp, v in results.items():
                 if not v.get("ok"):
-                    pan = (v.get("panics") or [""])[-1].split("|")[0].replace("/repo/", "")
+                    pan = panic_site((v.get("panics"))[-1]) if v.get("panics") else ""
                     res["violations"].append(dict(signature=f"{kind}:{imp}-fails:{pan or v.get('err', '')[:30]}", what=f"{label}: {imp} failed: {v.get('err')} {v.get('panics')} (|l|={len(L)}, |r|={len(R)})"))
                     continue
                 got[imp] = norm_rows(v["rows"])
